@@ -348,8 +348,12 @@ def classify_stationary(case, ctx=None, n1=4000):
     from genjax.state import state
 
     kern, tau, s, eps, L, d = case["kernel"], case["tau"], case["s"], case["eps"], case["L"], case["d"]
+    if case.get("steep"):
+        # a tight likelihood: |grad log p| ~ 1/s >> 1 over the bulk of the posterior; step size relative to the posterior sd
+        s = case["steep"]
+        eps = float(np.float32(case["eps_rel"] * math.sqrt(1.0 / (1.0 / tau**2 + 1.0 / s**2))))
     ys = np.asarray(case["ys"][:d], dtype=np.float32)
-    C = f"{kern}:{'vector' if d > 1 else 'scalar'}"
+    C = f"{kern}:{'vector' if d > 1 else 'scalar'}" + (":steep" if case.get("steep") else "")
     fails, info = [], {"family": "conjugate_normal", "kernel": kern, "d": d}
 
     @gen
@@ -448,7 +452,8 @@ def fam_cases():
                                  "vec": st.booleans(), "key": st.integers(0, 2**30)})
     stat = st.fixed_dictionaries({"kind": st.just("stationary"), "kernel": st.sampled_from(["mh", "mala", "hmc"]), "tau": f(0.5, 2.0), "s": f(0.4, 2.0),
                                   "eps": st.sampled_from([0.1, 0.4, 0.9, 1.5]), "L": st.integers(1, 5), "d": st.sampled_from([1, 1, 2, 3]),
-                                  "ys": st.lists(f(-2, 2), min_size=3, max_size=3), "key": st.integers(0, 2**30)})
+                                  "ys": st.lists(f(-2, 2), min_size=3, max_size=3), "key": st.integers(0, 2**30),
+                                  "steep": st.sampled_from([None, None, 0.002, 0.005, 0.01]), "eps_rel": st.sampled_from([0.5, 1.0, 1.4])})
     return st.one_of(mix, stat)
 
 
@@ -466,7 +471,7 @@ def one_case(ctx, case):
         nt, cls, sample = True, ["C09.mixture_indicator"], case
     else:
         fails, info = classify_stationary(case, ctx, P["n1"])
-        nt, cls, sample = True, [f"C09.stationary_{case['kernel']}", f"C09.stationary_d{min(case['d'], 2)}"], case
+        nt, cls, sample = True, [f"C09.stationary_{case['kernel']}", f"C09.stationary_d{min(case['d'], 2)}"] + (["C09.stationary_steep_target"] if case.get("steep") else []), case
     ctx.case(case, bool(nt), cls, sample=sample)
     for b, w in fails:
         ctx.fail(b, w, case)
